@@ -77,6 +77,37 @@ Definition equalities := (g_hook_eq, g_pickle_dump_eq, g_pickle_dump_defaults_eq
   g_deserializer_choice_eq, g_delta_source_eq, g_Delta_dump_mode_eq, g_Delta_dumps_to_dict_eq).
 Print Assumptions equalities.
 
+(** * JSON: the converter table and json_convertor_default's closure *)
+(* the generated literal and the hand-written table have the same (class, converter) entries *)
+Theorem g_JSON_CONVERTOR_eq : forall e : string * jconv, In e g_JSON_CONVERTOR <-> In e JSON_CONVERTOR_TABLE.
+Proof. apply same_entries_b_spec. vm_compute. reflexivity. Qed.
+(* ... and give every class of the payload universe the same converter (the loop takes the FIRST entry that matches: order
+   matters only between entries one object is an instance of - SetOrdered / orderly_set.StableSetEq here) *)
+Theorem g_JSON_CONVERTOR_first_match_eq : forall c : pycl,
+  table_first (pc_isinstance c) g_JSON_CONVERTOR = table_first (pc_isinstance c) JSON_CONVERTOR_TABLE.
+Proof. intros []; vm_compute; reflexivity. Qed.
+Theorem g_convertor_eq : forall (mapping : table) (c : pycl), g_convertor mapping c = convertor mapping c.
+Proof.
+  intros m c. unfold g_convertor, convertor. destruct (table_first (pc_isinstance c) m); [reflexivity|].
+  destruct c; cbn [pc_class_name]; cases; try reflexivity; try discriminate.
+Qed.
+Theorem g_convertor_mapping_eq : forall (dm : table) (c : pycl),
+  g_convertor (g_convertor_mapping dm) c = convertor (g_convertor_mapping dm) c /\
+  (dm = [] -> g_convertor_mapping dm = g_JSON_CONVERTOR) /\
+  (dm <> [] -> g_convertor_mapping dm = table_update g_JSON_CONVERTOR dm).
+Proof.
+  intros dm c. split; [apply g_convertor_eq|]. unfold g_convertor_mapping, table_copy. cbv zeta.
+  destruct dm as [|x r]; cbn [table_truth]; split; intro H; try reflexivity; try discriminate H; contradiction H; reflexivity.
+Qed.
+(* json_convertor_default() - no default_mapping - converts exactly as Codec.to_json assumes: sets and SetOrdered to lists, a
+   class to its __name__, bytes to their UTF-8 text, list_reverseiterator to a list; a frozenset (and anything else) is refused *)
+Theorem G_C14_json_default_convertor : forall c : pycl, g_convertor (g_convertor_mapping []) c = default_convertor c.
+Proof. intros []; vm_compute; reflexivity. Qed.
+
+Definition json_equalities := (g_JSON_CONVERTOR_eq, g_JSON_CONVERTOR_first_match_eq, g_convertor_eq, g_convertor_mapping_eq,
+  G_C14_json_default_convertor).
+Print Assumptions json_equalities.
+
 (** * Transfer: the theorems of Properties/C14.v, about the GENERATED definitions *)
 
 (* C14_persistent_id_only_nonetype *)
